@@ -1,4 +1,4 @@
 From GD Require Import C02.Model C02.MplexCache C02.Writes.
 Require Import ExtrOcamlBasic.
 Extraction Language OCaml.
-Extraction "model.ml" step run init spec_window dec_bz2 eof_field FUEL mplex_read mstep of_list mplex_val window put_raw.
+Extraction "model.ml" step run init spec_window dec_bz2 dec_bz2_crc eof_field FUEL mplex_read mstep of_list mplex_val window put_raw.
